@@ -1371,6 +1371,10 @@ class VarSub(Vars):
         indices_all = super().get_ind()
         return indices_all[self.indices].flatten()
 
+    def get(self):
+
+        return np.array(super().get()).flatten()[self.indices]
+
     def __getitem__(self, item):
 
         new_indices = self.indices[item]
